@@ -50,9 +50,29 @@ func GenBranches(t *rapid.T, n, base, max, maxLen int) []BranchSpec {
 			at = rapid.IntRange(l, h).Draw(t, "atnear")
 		}
 		ln := rapid.IntRange(1, maxLen).Draw(t, "blen")
-		b := BranchSpec{Parent: parent, At: at, Len: ln, Pace: rapid.IntRange(0, 3).Draw(t, "bpace")}
+		// bias towards exact length ties / one-more with the displaced part
+		switch rapid.IntRange(0, 5).Draw(t, "tiebias") {
+		case 0:
+			if base-at >= 1 {
+				ln = base - at
+			}
+		case 1:
+			if base-at >= 0 {
+				ln = base - at + 1
+			}
+		}
+		if ln > maxLen {
+			ln = maxLen
+		}
+		b := BranchSpec{Parent: parent, At: at, Len: ln, Pace: rapid.IntRange(0, 4).Draw(t, "bpace")}
 		out = append(out, b)
 		tipOf = append(tipOf, at+ln)
 	}
 	return out
+}
+
+// GenMut draws a header mutator; the context-dependent rules (median time,
+// required difficulty) are drawn more often than the context-free ones.
+func GenMut(t *rapid.T, label string) string {
+	return rapid.SampledFrom([]string{MutMTP, MutMTP, MutMTP, MutBits, MutBits, MutBits, MutPow, MutFuture, MutPrev, MutVersion}).Draw(t, label)
 }
